@@ -4,7 +4,6 @@ import json
 
 NA_FIXED = {
     'C03': 'bit-exact numeric equality with an external C++ reference over 2^80 inputs: a value property; no static shape decides it (DESIGN.md section 6). The mode->function dispatch is decided under C02.',
-    'C18': 'pixel-exact output of extrude_border and tie/range rules of PaletteMapper: value-level; no structural necessary condition short of evaluating the arithmetic (DESIGN.md section 6)',
 }
 PENDING = 'check under construction (DESIGN.md Appendix C); not claimed yet'
 
@@ -30,6 +29,13 @@ CLAIMED['C09'] = dict(
     design_ref='DESIGN.md section 13 (supersedes the not-applicable entry of section 4/6 for C09)',
     note='Trusted: rustc MIR, the driver, the documented semantics of Iterator::enumerate/take/rposition (not analysed). The rule recognises the rposition form of the search and the loop (strongly) / recursive / iterator (weakly: unbounded walk + VISIBLE flag) forms of is_visible; a rewrite into a different algorithm is reported as an unrecognised form.',
     technique='static analysis: MIR provenance terms, closure-body inspection, dominance/guards (custom rustc_private driver)')
+
+CLAIMED['C18'] = dict(
+    category='other',
+    text='Static shape analysis over rustc MIR of src/util.rs in the `utils` configuration (a second fact extraction with --features utils). For a row-major buffer the clamp formula of the statement is exactly: rows 0, 0..h, h-1 and per row pixel 0, pixels 0..w, pixel w-1 written into a (w+2) x (h+2) image - the check shows that extrude_border returns from_raw(w+2, h+2, data), iterates once(0).chain(0..h).chain(once(h-1)), and per row performs exactly three appends from image.as_raw() in that order with the byte ranges [ofs, ofs+4], [ofs, ofs+4w], [ofs+4w-4, ofs+4w], ofs = row*4*w (compared as polynomials over atoms), nothing else writing the buffer. PaletteMapper: lookup returns self.transparent exactly under alpha != 255 and otherwise map.get(r + (g<<8) + (b<<16)) or self.failure; new() stores transparent = options.transparent.unwrap_or(options.failure), failure = options.failure, inserts every palette entry under the same key polynomial (sibling agreement with lookup) with value `index as u8` only under index < 256, else the failure index; to_indexed_image returns (image.dimensions(), pixels().map(lookup(c[0],c[1],c[2],c[3])).collect()). The module has bodies only with the feature. NOT decided: which of several palette entries with equal RGB wins (hash iteration order - the statement avoids it) and pixel values as such.',
+    design_ref='DESIGN.md section 13 (supersedes the not-applicable entry of section 4/6 for C18)',
+    note='Trusted: rustc MIR, the driver, row-major RGBA8 layout of image::ImageBuffer and row-major order of pixels(), documented behaviour of Iterator::once/chain/map/collect and HashMap::get/insert. An implementation of extrude_border by a different algorithm (e.g. get_pixel with clamped coordinates) is reported as an unrecognised form.',
+    technique='static analysis: MIR provenance terms normalised to polynomials over atoms, guard inspection, sibling comparison (custom rustc_private driver, two feature configurations)')
 
 CLAIMED['C15'] = dict(
     category='other',
